@@ -661,6 +661,15 @@ func (e *Env) callExpr(t *ast.CallExpr) Value {
 			return v
 		}
 		fail("contract: ite over %T", a)
+	case "atloop":
+		// atloop(n, e): the value e had when loop n was entered (before its first iteration)
+		nv, okn := arg(0).(Scalar)
+		if !okn || !nv.T.IsInt() || e.fr == nil || e.fr.loopEntrySt == nil || e.fr.loopEntrySt[int(nv.T.I.Int64())] == nil {
+			fail("contract: atloop(n, e) outside loop n")
+		}
+		n := *e
+		n.st = e.fr.loopEntrySt[int(nv.T.I.Int64())]
+		return n.eval(t.Args[1])
 	case "old":
 		if e.old == nil {
 			fail("contract: old() without pre-state")
